@@ -32,13 +32,13 @@ fn value_of(i: usize, blocks: usize) -> Vec<u8> {
     big_value(len, 0x60 + i as u8)
 }
 
-fn run_case(sizes: &[usize], fail: Fail, prefilled: usize) -> Result<Vec<String>, String> {
+fn run_case(sizes: &[usize], fail: Fail, prefilled: usize, overwrite: bool) -> Result<Vec<String>, String> {
     let k = sizes.len();
     let before_last: usize = sizes[..k - 1].iter().sum();
     let data_blocks = match fail {
-        Fail::WritesFailThrice => (prefilled + sizes.iter().sum::<usize>() + 3) as u64,
-        // the last record is one block short of fitting
-        _ => (prefilled + before_last + sizes[k - 1] - 1) as u64,
+        Fail::WritesFailThrice => (prefilled + overwrite as usize + sizes.iter().sum::<usize>() + 3) as u64,
+        // the last record is one block short of fitting (a replacement needs its new block while the old one is still held)
+        _ => (prefilled + overwrite as usize + before_last + sizes[k - 1] - 1) as u64,
     };
     if data_blocks < 2 {
         return Ok(Vec::new());
@@ -58,6 +58,13 @@ fn run_case(sizes: &[usize], fail: Fail, prefilled: usize) -> Result<Vec<String>
     }
     if prefilled > 0 {
         let _ = st.flush();
+    }
+    if overwrite {
+        // the failing batch starts with a replacement of a durable record
+        let v = value_of(30, 1);
+        st.insert(b"p0", &v).map_err(|e| format!("overwrite: {e:?}"))?;
+        want.retain(|(key, _)| key != b"p0");
+        want.push((b"p0".to_vec(), v));
     }
     let keys: Vec<Vec<u8>> = (0..k).map(|i| format!("k{i}").into_bytes()).collect();
     for (i, &b) in sizes.iter().enumerate() {
@@ -100,7 +107,7 @@ fn run_case(sizes: &[usize], fail: Fail, prefilled: usize) -> Result<Vec<String>
     }
     let _ = st.flush();
     let _ = st.flush();
-    let desc = format!("{sizes:?} blocks, {fail:?}, {prefilled} durable records before the batch, {data_blocks} data blocks");
+    let desc = format!("{sizes:?} blocks, {fail:?}, {prefilled} durable records before the batch{}, {data_blocks} data blocks", if overwrite { " (one of them replaced in the batch)" } else { "" });
     let check_reads = |store: &feoxdb::FeoxStore, when: &str, problems: &mut Vec<String>| {
         for (key, v) in &want {
             match store.get(key) {
@@ -154,7 +161,7 @@ fn run_case(sizes: &[usize], fail: Fail, prefilled: usize) -> Result<Vec<String>
 /// All cases. `accept`: the property tags the calling check counts.
 pub fn run(accept: &[&str], thorough: bool, report: &mut Report) {
     let max_k = if thorough { 5 } else { 4 };
-    let mut cases: Vec<(Vec<usize>, Fail, usize)> = Vec::new();
+    let mut cases: Vec<(Vec<usize>, Fail, usize, bool)> = Vec::new();
     let mut sizes: Vec<Vec<usize>> = vec![vec![]];
     for _ in 0..max_k {
         let mut next = Vec::new();
@@ -176,7 +183,10 @@ pub fn run(accept: &[&str], thorough: bool, report: &mut Report) {
                         if fail == Fail::NoRoomThenShrink && s[s.len() - 1] == 1 {
                             continue;
                         }
-                        cases.push((s.clone(), fail, prefilled));
+                        cases.push((s.clone(), fail, prefilled, false));
+                        if prefilled > 0 {
+                            cases.push((s.clone(), fail, prefilled, true));
+                        }
                     }
                 }
             }
@@ -188,17 +198,17 @@ pub fn run(accept: &[&str], thorough: bool, report: &mut Report) {
     let mach: Mutex<Vec<String>> = Mutex::new(Vec::new());
     let stop = AtomicBool::new(false);
     let done = AtomicU64::new(0);
-    par_for_each(cases, crate::util::worker_threads(), &stop, |_, (s, fail, pre)| {
-        crate::util::set_context(json!({"engine": "batchfail", "sizes": s, "fail": format!("{fail:?}"), "prefilled": pre}));
+    par_for_each(cases, crate::util::worker_threads(), &stop, |_, (s, fail, pre, ow)| {
+        crate::util::set_context(json!({"engine": "batchfail", "sizes": s, "fail": format!("{fail:?}"), "prefilled": pre, "overwrite": ow}));
         // a case is a handful of calls taking milliseconds: the whole case runs under the call watchdog
         let _call = crate::util::in_call("failed-batch case (insert / flush / delete / reopen)");
-        match run_case(&s, fail, pre) {
+        match run_case(&s, fail, pre, ow) {
             Ok(problems) => {
                 for p in problems {
                     if super::accepted(accept, &p) {
                         let mut b = bad.lock().unwrap();
                         if b.len() < 40 {
-                            b.push((format!("{s:?}|{fail:?}|{pre}"), p));
+                            b.push((format!("{s:?}|{fail:?}|{pre}{}", if ow { "+ow" } else { "" }), p));
                         }
                     }
                 }
@@ -225,6 +235,6 @@ pub fn run(accept: &[&str], thorough: bool, report: &mut Report) {
         "failed_batch_family",
         json!({"cases": n_cases, "completed": done.load(Ordering::Relaxed), "records_per_batch": format!("2..={max_k}"), "blocks_per_record": "1..=3",
                "failure_kinds": ["last record finds no room, then deleted", "last record finds no room, then replaced by a one-block value", "first three data writes fail"],
-               "durable_records_before_the_batch": [0, 2], "exhaustive": true}),
+               "durable_records_before_the_batch": [0, 2], "one_of_them_replaced_in_the_batch": [false, true], "exhaustive": true}),
     );
 }
